@@ -96,6 +96,10 @@ def plain_assignments(fn: ast.FunctionDef) -> list[str]:
     return sorted({_u(n) for n in ast.walk(fn) if isinstance(n, (ast.Assign, ast.AnnAssign)) and getattr(n, 'value', None) is not None and len(_u(n)) < 500})
 
 
+def return_statements(fn: ast.FunctionDef) -> list[str]:
+    return sorted({_u(n) for n in ast.walk(fn) if isinstance(n, ast.Return) and n.value is not None and len(_u(n)) < 500})
+
+
 def loop_headers(fn: ast.FunctionDef) -> list[str]:
     return [f'for {_u(n.target)} in {_u(n.iter)}' for n in ast.walk(fn) if isinstance(n, ast.For)]
 
@@ -150,10 +154,12 @@ def build_reference(repo) -> dict:
         ref['functions'][q] = {'locals': sorted(local_names(fi.node)), 'ifexp': sorted(ifexp_statements(fi.node)),
                                'bindings': ordered_bindings(fi.node), 'shape': shape(fi.node), 'parallel': sorted(par),
                                'comp': sorted(comprehension_statements(fi.node)), 'loops': sorted(loop_headers(fi.node)),
-                               'assigns': plain_assignments(fi.node), 'elementwise': element_wise_receivers(fi.node)}
+                               'assigns': plain_assignments(fi.node), 'elementwise': element_wise_receivers(fi.node),
+                               'returns': return_statements(fi.node)}
     ref['modules'] = {m.name: sorted(m.assigns) for m in repo.modules.values()}
     for q, ci in repo.classes.items():
-        ref['classes'][q] = {'attrs': class_private_attrs(ci), 'attrs_m': class_private_attrs(ci, True), 'methods': sorted(ci.methods)}
+        ref['classes'][q] = {'attrs': class_private_attrs(ci), 'attrs_m': class_private_attrs(ci, True), 'methods': sorted(ci.methods),
+                             'consts': sorted(ci.attrs)}
     return ref
 
 
@@ -323,6 +329,16 @@ def _structure_returns(body: list[ast.stmt]) -> list[ast.stmt] | None:
     for i, st in enumerate(body):
         if isinstance(st, ast.Return):
             return body[:i + 1]
+        if isinstance(st, ast.Try) and any(isinstance(n, ast.Return) for n in ast.walk(st)):
+            # `try: ...; return X` / `except E: <exit>` as the last statement: the return stays the tail of the protected block
+            inner = _structure_returns(st.body)
+            ok = inner is not None and _always_returns(inner) and not st.orelse and not st.finalbody and i == len(body) - 1 \
+                and all(_always_returns(h.body) and not any(isinstance(n, ast.Return) for b_ in h.body for n in ast.walk(b_)) for h in st.handlers)
+            if not ok:
+                return None
+            new = ast.Try(body=inner, handlers=st.handlers, orelse=[], finalbody=[])
+            ast.copy_location(new, st)
+            return body[:i] + [new]
         if isinstance(st, (ast.For, ast.While, ast.Try, ast.With, ast.AsyncFor, ast.AsyncWith)) and any(isinstance(n, ast.Return) for n in ast.walk(st)):
             return None
         if isinstance(st, ast.If) and any(isinstance(n, ast.Return) for n in ast.walk(st)):
@@ -347,6 +363,8 @@ def _always_returns(body) -> bool:
         return True
     if isinstance(last, ast.If) and last.orelse:
         return _always_returns(last.body) and _always_returns(last.orelse)
+    if isinstance(last, ast.Try) and not last.orelse and not last.finalbody:
+        return _always_returns(last.body) and all(_always_returns(h.body) for h in last.handlers)
     return False
 
 
@@ -358,6 +376,10 @@ def _replace_returns(body, make):
             out.extend(make(st.value if st.value is not None else ast.Constant(value=None)))
         elif isinstance(st, ast.If):
             new = ast.If(test=st.test, body=_replace_returns(st.body, make) or [ast.Pass()], orelse=_replace_returns(st.orelse, make))
+            ast.copy_location(new, st)
+            out.append(new)
+        elif isinstance(st, ast.Try) and any(isinstance(n, ast.Return) for b_ in st.body for n in ast.walk(b_)):
+            new = ast.Try(body=_replace_returns(st.body, make) or [ast.Pass()], handlers=st.handlers, orelse=st.orelse, finalbody=st.finalbody)
             ast.copy_location(new, st)
             out.append(new)
         else:
@@ -559,8 +581,11 @@ def _instantiate(h, call, skip_first, caller_locals, recv_name, target: str | No
             and (target not in h_locals or target == rets[0].value.id):
         ret_local = rets[0].value.id
         ren[ret_local] = target
+    # a helper local named like the variable the result is assigned to may keep the name: whatever the caller had there is
+    # overwritten by this very assignment, and no argument reads it
+    target_free = target is not None and not any(isinstance(n, ast.Name) and n.id == target for a in m.values() for n in ast.walk(a))
     for v in h_locals:
-        if v in caller_locals and v != ret_local:
+        if v in caller_locals and v != ret_local and not (v == target and target_free):
             ren[v] = f'{v}__{h.name.strip("_")}'
     if ren:
         for n in ast.walk(wrapper):
@@ -930,22 +955,60 @@ def _defined_before(fn, name, st) -> bool:
 
 
 def _window_stable(fn, body, idx, name, reads) -> bool:
-    """Definition and every use sit in one statement list, and no statement from the definition to the last use stores to,
-    or calls a mutating method on, anything the expression reads."""
-    uses = [n for n in ast.walk(fn) if isinstance(n, ast.Name) and n.id == name and isinstance(n.ctx, ast.Load)]
-    owner = {}
-    for j in range(idx + 1, len(body)):
-        for x in ast.walk(body[j]):
-            owner[id(x)] = j
-    if not uses or any(id(u) not in owner for u in uses):
+    """Every use sits in the statements that follow the definition in its own statement list (at any depth), and on every way
+    through them no use is evaluated after something the expression reads has been stored to or mutated. A statement's own
+    store comes after the evaluation of its right-hand side; the tests of an if/elif chain come before its bodies."""
+    uses = {id(n) for n in ast.walk(fn) if isinstance(n, ast.Name) and n.id == name and isinstance(n.ctx, ast.Load)}
+    inside = {id(x) for j in range(idx + 1, len(body)) for x in ast.walk(body[j])}
+    if not uses or not uses <= inside:
         return False
-    last = max(owner[id(u)] for u in uses)
-    for j in range(idx + 1, last + 1):
-        st_stored, st_mut = _stores_and_mutations(ast.Module(body=[body[j]], type_ignores=[]))
+
+    def touches(node) -> bool:
+        st_stored, st_mut = _stores_and_mutations(ast.Module(body=[node], type_ignores=[]) if isinstance(node, ast.stmt) else ast.Expression(body=node))
         for r in reads:
             if r in st_stored or any(m == r or r.startswith(m + '.') or r.startswith(m + '[') or m.startswith(r + '.') or m.startswith(r + '[') for m in st_mut):
-                return False
-        # a loop in the window re-executes: a use inside it would see later values only if something is stored, which was just excluded
+                return True
+        return False
+
+    def has_use(node) -> bool:
+        return any(id(x) in uses for x in ast.walk(node))
+
+    class Unsafe(Exception):
+        pass
+
+    def seq(stmts, dirty: bool) -> bool:
+        for st in stmts:
+            dirty = one(st, dirty)
+        return dirty
+
+    def one(st, dirty: bool) -> bool:
+        if isinstance(st, ast.If):
+            if has_use(st.test) and dirty:
+                raise Unsafe
+            d0 = dirty or touches(st.test)
+            db, do = seq(st.body, d0), seq(st.orelse, d0)
+            # a branch that always leaves the function hands nothing on to what follows
+            return (db and not _always_returns(st.body)) | (do and not (st.orelse and _always_returns(st.orelse))) | (d0 and not st.orelse)
+        if isinstance(st, (ast.For, ast.While, ast.AsyncFor)):
+            if has_use(st) and (dirty or touches(st)):
+                raise Unsafe          # a second iteration would evaluate the use after the store
+            return dirty or touches(st)
+        if isinstance(st, (ast.Try, ast.With, ast.AsyncWith, ast.Match)) or hasattr(st, 'body') and isinstance(getattr(st, 'body'), list):
+            if has_use(st) and (dirty or touches(st)):
+                raise Unsafe
+            return dirty or touches(st)
+        # a simple statement: its expressions are evaluated first, its own stores happen last
+        if has_use(st):
+            if dirty:
+                raise Unsafe
+            _, st_mut = _stores_and_mutations(ast.Module(body=[st], type_ignores=[]))
+            if any(m == r or r.startswith(m + '.') or r.startswith(m + '[') or m.startswith(r + '.') or m.startswith(r + '[') for m in st_mut for r in reads):
+                raise Unsafe          # a mutating call inside the same statement: order of evaluation would matter
+        return dirty or touches(st)
+    try:
+        seq(body[idx + 1:], False)
+    except Unsafe:
+        return False
     return True
 
 
@@ -1590,7 +1653,10 @@ def _expand_find_first(fn: ast.FunctionDef, known_assigns: set[str]) -> list[str
                 inside[n.id] = inside.get(n.id, 0) + 1
         return all(used.get(v, 0) == inside.get(v, 0) for v in cvars)
 
-    def is_next(e):
+    def is_next(e, allow_no_default=False):
+        if isinstance(e, ast.Call) and isinstance(e.func, ast.Name) and e.func.id == 'next' and len(e.args) == 1 and not e.keywords and allow_no_default \
+                and isinstance(e.args[0], ast.GeneratorExp) and fresh(e.args[0]):
+            return True
         return isinstance(e, ast.Call) and isinstance(e.func, ast.Name) and e.func.id == 'next' and len(e.args) == 2 and not e.keywords \
             and isinstance(e.args[0], ast.GeneratorExp) and _is_pure(e.args[1]) and fresh(e.args[0])
     for body in list(_bodies(fn)):
@@ -1598,13 +1664,18 @@ def _expand_find_first(fn: ast.FunctionDef, known_assigns: set[str]) -> list[str
         while i < len(body):
             st = body[i]
             new = None
-            if isinstance(st, ast.Return) and st.value is not None and is_next(st.value):
-                gen, dflt = st.value.args
+            if isinstance(st, ast.Return) and st.value is not None and is_next(st.value, True):
+                gen = st.value.args[0]
+                dflt = st.value.args[1] if len(st.value.args) == 2 else None
                 loop = _comp_loop(gen, lambda e: ast.Return(value=e), st)
                 if loop is not None:
-                    last = ast.Return(value=dflt)
-                    _set_lines(last, st)
-                    last.value = dflt
+                    if dflt is not None:
+                        last = ast.Return(value=dflt)
+                        _set_lines(last, st)
+                        last.value = dflt
+                    else:       # next() of an exhausted generator
+                        last = ast.Raise(exc=ast.Call(func=ast.Name(id='StopIteration', ctx=ast.Load()), args=[], keywords=[]), cause=None)
+                        _set_lines(last, st)
                     new = [loop, last]
             elif isinstance(st, (ast.Assign, ast.AnnAssign)) and getattr(st, 'value', None) is not None and is_next(st.value) and _u(st) not in known_assigns \
                     and len(st.value.args[0].generators) == 1:
@@ -1662,6 +1733,17 @@ def _noneness(repo, fi, e) -> bool | None:
             return False
         imp = m.imports.get(name)
         if imp is not None and imp[0] == 'symbol' and f'{imp[1]}.{imp[2]}' in repo.classes:
+            return False
+    if isinstance(e, ast.Call) and isinstance(e.func, ast.Attribute) and isinstance(e.func.value, ast.Name):
+        # Outer.Nested(...) / module.Class(...)
+        m = fi.module
+        base = e.func.value.id
+        if base in m.classes and f'{m.classes[base].qualname}.{e.func.attr}' in repo.classes:
+            return False
+        imp = m.imports.get(base)
+        if imp is not None and imp[0] == 'module' and f'{imp[1]}.{e.func.attr}' in repo.classes:
+            return False
+        if imp is not None and imp[0] == 'symbol' and f'{imp[1]}.{imp[2]}.{e.func.attr}' in repo.classes:
             return False
     return None
 
@@ -1862,6 +1944,394 @@ class _MapSpelling(ast.NodeTransformer):
     def visit_GeneratorExp(self, node):
         self.generic_visit(node)
         return self._fuse(node)
+
+
+# ------------------------------------------------------------------------------------------------ (r) loops over new constant tables
+
+def _atom(e) -> bool:
+    if isinstance(e, ast.Constant) or isinstance(e, ast.Name):
+        return True
+    if isinstance(e, ast.Attribute):
+        return _atom(e.value)
+    if isinstance(e, ast.UnaryOp) and isinstance(e.op, (ast.USub, ast.UAdd)) and isinstance(e.operand, ast.Constant):
+        return True
+    return False
+
+
+def _table_rows(repo, fi, it, ref):
+    """Rows of the constant table a loop iterates, when the table is a module- or class-level literal the reviewed tree does not
+    have: a tuple / list of atoms or of equally long tuples of atoms, or `<dict literal>.items()` (rows are (key, value))."""
+    items = False
+    if isinstance(it, ast.Call) and isinstance(it.func, ast.Attribute) and it.func.attr == 'items' and not it.args and not it.keywords:
+        it, items = it.func.value, True
+    val = None
+    m = fi.module
+    if isinstance(it, ast.Name):
+        if it.id in ref.get('modules', {}).get(m.name, [it.id]) or it.id in local_names(fi.node):
+            return None
+        vals = m.assigns.get(it.id) or []
+        val = vals[0] if len(vals) == 1 else None
+        if val is None and it.id in m.annotations and False:
+            return None
+    elif isinstance(it, ast.Attribute) and isinstance(it.value, ast.Name):
+        owner = None
+        if it.value.id in ('self', 'cls') and fi.cls is not None:
+            owner = next((c for c in fi.cls.mro() if it.attr in c.attrs), None)
+        elif it.value.id in m.classes:
+            owner = m.classes[it.value.id] if it.attr in m.classes[it.value.id].attrs else None
+        if owner is None or it.attr in ref.get('classes', {}).get(owner.qualname, {}).get('consts', [it.attr]):
+            return None
+        val = owner.attrs.get(it.attr)
+    if val is None:
+        return None
+    if items:
+        if not isinstance(val, ast.Dict) or any(k is None for k in val.keys):
+            return None
+        rows = [[k, v] for k, v in zip(val.keys, val.values)]
+    else:
+        if not isinstance(val, (ast.Tuple, ast.List)):
+            return None
+        rows = [list(r.elts) if isinstance(r, ast.Tuple) else [r] for r in val.elts]
+    if not rows or len(rows) > 16 or len({len(r) for r in rows}) != 1 or not all(_atom(x) for r in rows for x in r):
+        return None
+    # names used in the table must mean the same where the loop is (same module)
+    return rows
+
+
+class _ConstFold(ast.NodeTransformer):
+    """Decides what substituting table constants has made constant: boolean operations with literal operands, `not <literal>`,
+    `len('..')`, comparisons of two literals, `s.startswith('')`, conditional expressions and `if` statements on a literal."""
+    def visit_BoolOp(self, node):
+        self.generic_visit(node)
+        vals = []
+        is_and = isinstance(node.op, ast.And)
+        for k, v in enumerate(node.values):
+            last = k == len(node.values) - 1
+            if isinstance(v, ast.Constant) and isinstance(v.value, bool):
+                if v.value == is_and:
+                    if last and not vals:
+                        return v
+                    if not last:
+                        continue          # neutral element
+                    vals.append(v)
+                else:
+                    vals.append(v)        # absorbing: what follows is never evaluated
+                    break
+            else:
+                vals.append(v)
+        if len(vals) == 1:
+            return vals[0]
+        # `x and True` as a value is not `x`; keep the literal unless the whole thing is a test (handled by callers reading truthiness)
+        node.values = vals
+        return node
+
+    def visit_UnaryOp(self, node):
+        self.generic_visit(node)
+        if isinstance(node.op, ast.Not) and isinstance(node.operand, ast.Constant):
+            return ast.copy_location(ast.Constant(value=not node.operand.value), node)
+        return node
+
+    def visit_Call(self, node):
+        self.generic_visit(node)
+        if isinstance(node.func, ast.Name) and node.func.id == 'len' and len(node.args) == 1 and isinstance(node.args[0], ast.Constant) \
+                and isinstance(node.args[0].value, (str, bytes)):
+            return ast.copy_location(ast.Constant(value=len(node.args[0].value)), node)
+        if isinstance(node.func, ast.Attribute) and node.func.attr in ('startswith', 'endswith') and len(node.args) == 1 and isinstance(node.args[0], ast.Constant) \
+                and node.args[0].value == '' and _is_pure(node.func.value):
+            return ast.copy_location(ast.Constant(value=True), node)
+        if isinstance(node.func, ast.Name) and node.func.id == 'int' and len(node.args) == 1 and not node.keywords and isinstance(node.args[0], ast.Constant) \
+                and type(node.args[0].value) is int:
+            return node.args[0]
+        return node
+
+    def visit_BinOp(self, node):
+        self.generic_visit(node)
+        if isinstance(node.left, ast.Constant) and isinstance(node.right, ast.Constant) and type(node.left.value) is int and type(node.right.value) is int:
+            a, b = node.left.value, node.right.value
+            r = None
+            if isinstance(node.op, ast.BitAnd):
+                r = a & b
+            elif isinstance(node.op, ast.BitOr):
+                r = a | b
+            elif isinstance(node.op, ast.Add):
+                r = a + b
+            elif isinstance(node.op, ast.Sub):
+                r = a - b
+            if r is not None:
+                return ast.copy_location(ast.Constant(value=r), node)
+        return node
+
+    def visit_Compare(self, node):
+        self.generic_visit(node)
+        if len(node.ops) == 1 and isinstance(node.left, ast.Constant) and isinstance(node.comparators[0], ast.Constant):
+            a, b = node.left.value, node.comparators[0].value
+            op = node.ops[0]
+            r = None
+            if isinstance(op, ast.Eq):
+                r = a == b
+            elif isinstance(op, ast.NotEq):
+                r = a != b
+            elif isinstance(op, ast.Is) and (a is None or b is None or isinstance(a, bool) or isinstance(b, bool)):
+                r = a is b
+            elif isinstance(op, ast.IsNot) and (a is None or b is None or isinstance(a, bool) or isinstance(b, bool)):
+                r = a is not b
+            if r is not None:
+                return ast.copy_location(ast.Constant(value=r), node)
+        return node
+
+    def visit_IfExp(self, node):
+        self.generic_visit(node)
+        if isinstance(node.test, ast.Constant):
+            return node.body if node.test.value else node.orelse
+        return node
+
+
+def _fold_if_statements(stmts):
+    out = []
+    for st in stmts:
+        for fld in ('body', 'orelse', 'finalbody'):
+            if hasattr(st, fld) and isinstance(getattr(st, fld), list) and not isinstance(st, ast.If):
+                setattr(st, fld, _fold_if_statements(getattr(st, fld)) or ([ast.copy_location(ast.Pass(), st)] if fld == 'body' else []))
+        if isinstance(st, ast.If):
+            st.body = _fold_if_statements(st.body) or [ast.copy_location(ast.Pass(), st)]
+            st.orelse = _fold_if_statements(st.orelse)
+            if isinstance(st.test, ast.Constant):
+                out.extend(st.body if st.test.value else st.orelse)
+                continue
+            # `if True and X` already reduced to `if X` by the expression folder; `if X and True` -> `if X`
+            if isinstance(st.test, ast.BoolOp) and isinstance(st.test.op, ast.And) and isinstance(st.test.values[-1], ast.Constant) and st.test.values[-1].value is True:
+                st.test = st.test.values[0] if len(st.test.values) == 2 else ast.BoolOp(op=ast.And(), values=st.test.values[:-1])
+        out.append(st)
+        if isinstance(st, (ast.Return, ast.Raise)):
+            break
+    return out
+
+
+def _unroll_tables(repo, fi, ref) -> list[str]:
+    fn = fi.node
+    done = []
+    for body in list(_bodies(fn)):
+        i = 0
+        while i < len(body):
+            st = body[i]
+            i += 1
+            if not (isinstance(st, ast.For) and not st.orelse):
+                continue
+            rows = _table_rows(repo, fi, st.iter, ref)
+            if rows is None:
+                continue
+            tg = st.target
+            names = [tg.id] if isinstance(tg, ast.Name) else [e.id for e in tg.elts] if isinstance(tg, ast.Tuple) and all(isinstance(e, ast.Name) for e in tg.elts) else None
+            if names is None or len(names) != len(rows[0]) or len(set(names)) != len(names):
+                continue
+            inside = {id(n) for n in ast.walk(st)}
+            if any(isinstance(n, ast.Name) and n.id in names and id(n) not in inside for n in ast.walk(fn)):
+                continue      # a loop variable is read after the loop
+            if any(isinstance(n, ast.Name) and n.id in names and isinstance(n.ctx, ast.Store) for b in st.body for n in ast.walk(b)):
+                continue
+            # break / continue of this loop (not of a nested one) would need more than copying the body
+            def own_jumps(stmts):
+                for s_ in stmts:
+                    if isinstance(s_, (ast.Break, ast.Continue)):
+                        return True
+                    if isinstance(s_, (ast.For, ast.While)):
+                        continue
+                    for fld in ('body', 'orelse', 'handlers', 'finalbody'):
+                        sub = getattr(s_, fld, None)
+                        if isinstance(sub, list) and own_jumps([x for x in sub if isinstance(x, ast.stmt)] + [y for x in sub if isinstance(x, ast.ExceptHandler) for y in x.body]):
+                            return True
+                return False
+            if own_jumps(st.body):
+                # first match wins: `for row in T: if C: <effects>; break` -> if C1: .. elif C2: .. (the one `break` is what ends the search)
+                b0 = st.body[0] if len(st.body) == 1 else None
+                if not (isinstance(b0, ast.If) and not b0.orelse and isinstance(b0.body[-1], ast.Break) and not own_jumps(b0.body[:-1])):
+                    continue
+                chain = None
+                for r in reversed(rows):
+                    w = ast.Module(body=[copy.deepcopy(b0)], type_ignores=[])
+                    w = _ConstFold().visit(_Subst(dict(zip(names, r))).visit(w))
+                    node_ = w.body[0]
+                    node_.body = node_.body[:-1] or [ast.Pass()]
+                    if isinstance(node_.test, ast.Constant):
+                        if node_.test.value:
+                            chain = node_.body          # always matches: what follows is never tried
+                        continue
+                    node_.orelse = chain if isinstance(chain, list) else ([chain] if chain is not None else [])
+                    chain = node_
+                new = chain if isinstance(chain, list) else ([chain] if chain is not None else [])
+                for n in new:
+                    for x in ast.walk(n):
+                        if isinstance(x, ast.stmt):
+                            ast.copy_location(x, st)
+                body[i - 1:i] = new or [ast.copy_location(ast.Pass(), st)]
+                i += len(new) - 1
+                done.append(f'first-match loop for {_u(st.target)} in {_u(st.iter)} ({len(rows)} rows)')
+                continue
+            new = []
+            for r in rows:
+                copy_body = copy.deepcopy(st.body)
+                wrapper = ast.Module(body=copy_body, type_ignores=[])
+                wrapper = _Subst(dict(zip(names, r))).visit(wrapper)
+                wrapper = _ConstFold().visit(wrapper)
+                new.extend(_fold_if_statements(wrapper.body))
+                if new and isinstance(new[-1], (ast.Return, ast.Raise)):
+                    break
+            for n in new:
+                for x in ast.walk(n):
+                    if isinstance(x, ast.stmt):
+                        ast.copy_location(x, st)
+            body[i - 1:i] = new or [ast.copy_location(ast.Pass(), st)]
+            i += len(new) - 1
+            done.append(f'for {_u(st.target)} in {_u(st.iter)} ({len(rows)} rows)')
+    return done
+
+
+# ------------------------------------------------------------------------------------------------ (s) d.get(k, default)
+
+def _expand_get_default(fn: ast.FunctionDef, known_assigns: set[str], known_returns: set[str]) -> list[str]:
+    """A new `return E[d.get('k', D)]` / `x = E[d.get('k', D)]` -> `if 'k' in d: <stmt with d['k']> else: <stmt with D>` (constant key,
+    `d` and `D` free of effects, the lookup evaluated unconditionally and exactly once in the statement)."""
+    done = []
+    for body in list(_bodies(fn)):
+        i = 0
+        while i < len(body):
+            st = body[i]
+            i += 1
+            if isinstance(st, ast.Return) and st.value is not None:
+                if _u(st) in known_returns:
+                    continue
+            elif isinstance(st, (ast.Assign, ast.AnnAssign)) and getattr(st, 'value', None) is not None:
+                if _u(st) in known_assigns:
+                    continue
+            else:
+                continue
+            gets = [c for c in ast.walk(st.value) if isinstance(c, ast.Call) and isinstance(c.func, ast.Attribute) and c.func.attr == 'get' and len(c.args) == 2
+                    and not c.keywords and isinstance(c.args[0], ast.Constant) and isinstance(c.args[0].value, str) and _is_pure(c.func.value) and _is_pure(c.args[1])]
+            if len(gets) != 1:
+                continue
+            g = gets[0]
+            # the reviewed function spelled this lookup with .get itself: nothing to recover
+            if any(f'.get({g.args[0].value!r}' in t for t in list(known_assigns) + list(known_returns)):
+                continue
+            # unconditional: not under a boolean operator, conditional expression, lambda or comprehension
+            cond_parents = [n for n in ast.walk(st.value) if isinstance(n, (ast.BoolOp, ast.IfExp, ast.Lambda, ast.ListComp, ast.GeneratorExp, ast.DictComp, ast.SetComp))
+                            and any(x is g for x in ast.walk(n))]
+            if cond_parents:
+                continue
+            d, k, dflt = g.func.value, g.args[0], g.args[1]
+
+            def variant(repl):
+                c = copy.deepcopy(st)
+
+                class R(ast.NodeTransformer):
+                    def visit_Call(self_, node):
+                        if _u(node) == _u(g):
+                            return copy.deepcopy(repl)
+                        return self_.generic_visit(node)
+                c.value = R().visit(c.value)
+                c = _ConstFold().visit(c)
+                return c
+            hit = variant(ast.Subscript(value=copy.deepcopy(d), slice=copy.deepcopy(k), ctx=ast.Load()))
+            miss = variant(dflt)
+            if isinstance(st, ast.AnnAssign):
+                hit = ast.Assign(targets=[copy.deepcopy(st.target)], value=hit.value)
+                miss = ast.Assign(targets=[copy.deepcopy(st.target)], value=miss.value)
+            new = ast.If(test=ast.Compare(left=copy.deepcopy(k), ops=[ast.In()], comparators=[copy.deepcopy(d)]), body=[hit], orelse=[miss])
+            for n in ast.walk(new):
+                if isinstance(n, (ast.stmt, ast.expr)):
+                    ast.copy_location(n, st)
+            body[i - 1] = new
+            done.append(_u(st)[:70])
+    return done
+
+
+# ------------------------------------------------------------------------------------------------ (t) v = d.get(k) / if v is None
+
+def _values_never_none(repo, fi, d) -> bool:
+    """Every value the dictionary `d` can hold is an object: a module-level dict literal without None values, or `self.X` that is
+    only ever filled by `self.X[..] = <fresh instance>` / a literal / an empty dict inside the class family."""
+    if isinstance(d, ast.Name):
+        vals = fi.module.assigns.get(d.id) or []
+        if len(vals) == 1 and isinstance(vals[0], ast.Dict) and d.id not in local_names(fi.node):
+            return all(not (isinstance(v, ast.Constant) and v.value is None) and (isinstance(v, (ast.Constant, ast.Attribute, ast.Name)) or _noneness(repo, fi, v) is False)
+                       for v in vals[0].values)
+        return False
+    if isinstance(d, ast.Attribute) and isinstance(d.value, ast.Name) and d.value.id == 'self' and fi.cls is not None:
+        attr = d.attr
+        ok_any = False
+        for c in fi.cls.mro() + fi.cls.all_subclasses():
+            for f in list(c.methods.values()) + list(c.setters.values()):
+                for n in ast.walk(f.node):
+                    if isinstance(n, ast.Attribute) and n.attr == attr and isinstance(n.value, ast.Name) and n.value.id == 'self' and isinstance(n.ctx, ast.Store):
+                        # self.X = <value>
+                        par = next((a for a in ast.walk(f.node) if isinstance(a, (ast.Assign, ast.AnnAssign)) and (n in getattr(a, 'targets', []) or getattr(a, 'target', None) is n)), None)
+                        v = getattr(par, 'value', None)
+                        if isinstance(v, ast.Dict) and all(_noneness(repo, f, x) is False for x in v.values):
+                            ok_any = True
+                        elif isinstance(v, ast.Call) and _u(v.func) == 'dict' and not v.args and not v.keywords:
+                            ok_any = True
+                        elif v is None and isinstance(par, ast.AnnAssign):
+                            pass
+                        else:
+                            return False
+                    if isinstance(n, ast.Subscript) and isinstance(n.ctx, ast.Store) and _u(n.value) == f'self.{attr}':
+                        par = next((a for a in ast.walk(f.node) if isinstance(a, ast.Assign) and n in a.targets), None)
+                        if par is None or _noneness(repo, f, par.value) is not False:
+                            return False
+                    if isinstance(n, ast.Call) and isinstance(n.func, ast.Attribute) and _u(n.func.value) == f'self.{attr}' and n.func.attr in ('update', 'setdefault', '__setitem__'):
+                        return False
+        return ok_any
+    return False
+
+
+def _expand_get_none_test(repo, fi, known_assigns: set[str]) -> list[str]:
+    """A new `v = d.get(k)` directly followed by a test of `v is None` / `v is not None`, for a dictionary that never holds None:
+    the test is `k not in d` / `k in d` and `v` is `d[k]` where it was found."""
+    fn = fi.node
+    done = []
+    for body in list(_bodies(fn)):
+        i = 0
+        while i + 1 < len(body):
+            a, b = body[i], body[i + 1]
+            i += 1
+            if not (isinstance(a, ast.Assign) and len(a.targets) == 1 and isinstance(a.targets[0], ast.Name) and _u(a) not in known_assigns
+                    and isinstance(a.value, ast.Call) and isinstance(a.value.func, ast.Attribute) and a.value.func.attr == 'get' and len(a.value.args) == 1
+                    and not a.value.keywords and _is_pure(a.value.func.value) and _is_pure(a.value.args[0])):
+                continue
+            v, d, k = a.targets[0].id, a.value.func.value, a.value.args[0]
+            if not (isinstance(b, ast.If) and isinstance(b.test, ast.Compare) and len(b.test.ops) == 1 and isinstance(b.test.left, ast.Name) and b.test.left.id == v
+                    and isinstance(b.test.comparators[0], ast.Constant) and b.test.comparators[0].value is None and isinstance(b.test.ops[0], (ast.Is, ast.IsNot))):
+                continue
+            stores = [n for n in ast.walk(fn) if isinstance(n, ast.Name) and n.id == v and isinstance(n.ctx, ast.Store)]
+            if len(stores) != 1 or not _values_never_none(repo, fi, d):
+                continue
+            found_when_true = isinstance(b.test.ops[0], ast.IsNot)
+            found_branch, missing_branch = (b.body, b.orelse) if found_when_true else (b.orelse, b.body)
+            rest = body[i + 1:]
+            uses_missing = any(isinstance(n, ast.Name) and n.id == v for s_ in missing_branch for n in ast.walk(s_))
+            uses_after = any(isinstance(n, ast.Name) and n.id == v for s_ in rest for n in ast.walk(s_))
+            if uses_missing:
+                continue
+            fetch = ast.Assign(targets=[ast.Name(id=v, ctx=ast.Store())], value=ast.Subscript(value=copy.deepcopy(d), slice=copy.deepcopy(k), ctx=ast.Load()))
+            _set_lines(fetch, a)
+            if uses_after:
+                # only sound when the missing branch never falls through (`if v is None: exit` guard): fetch after the test
+                if found_when_true or b.orelse or not _always_returns(b.body):
+                    continue
+                body.insert(i + 1, fetch)
+            else:
+                if found_when_true:
+                    b.body.insert(0, fetch)
+                else:
+                    if not b.orelse:
+                        pass          # v is not used where it was found: nothing to fetch
+                    else:
+                        b.orelse.insert(0, fetch)
+            op = ast.In() if found_when_true else ast.NotIn()
+            b.test = ast.copy_location(ast.Compare(left=copy.deepcopy(k), ops=[op], comparators=[copy.deepcopy(d)]), b.test)
+            del body[i - 1]
+            done.append(_u(a)[:60])
+    return done
 
 
 # ------------------------------------------------------------------------------------------------ (g) parallel assignments
@@ -2128,6 +2598,16 @@ def normalise(repo) -> dict:
         if known_locals is None:
             continue          # a function the rules have never seen: nothing refers to its locals, leave it as written
         try:
+            known_asg = set(ref_funcs[key].get('assigns', []))
+            if known_asg:
+                for body_ in list(_bodies(fi.node)):
+                    for k_, st_ in enumerate(body_):
+                        if isinstance(st_, ast.AnnAssign) and st_.value is not None and isinstance(st_.target, ast.Name) and _u(st_) not in known_asg:
+                            plain = ast.Assign(targets=[st_.target], value=st_.value)
+                            ast.copy_location(plain, st_)
+                            if _u(plain) in known_asg or not any(t.startswith(f'{st_.target.id}: ') for t in known_asg):
+                                body_[k_] = plain       # an annotation added to an assignment the reviewed tree wrote without one
+                                log.setdefault(q, []).append(f'annotation of a local dropped: {_u(st_)[:60]}')
             sp = _Spelling(fi.module.imports)
             sp.visit(fi.node)
             if sp.done:
@@ -2166,6 +2646,16 @@ def normalise(repo) -> dict:
                 if not d:
                     break
                 log.setdefault(q, []).extend(f'find-first -> loop: {x}' for x in d)
+            if 'returns' in ref_funcs[key]:
+                d = _expand_get_default(fi.node, set(ref_funcs[key].get('assigns', [])), set(ref_funcs[key]['returns']))
+                if d:
+                    log.setdefault(q, []).extend(f'get with a default -> membership test: {x}' for x in d)
+            d = _expand_get_none_test(repo, fi, set(ref_funcs[key].get('assigns', [])))
+            if d:
+                log.setdefault(q, []).extend(f'get + None test -> membership test: {x}' for x in d)
+            d = _unroll_tables(repo, fi, ref)
+            if d:
+                log.setdefault(q, []).extend(f'loop over a new constant table unrolled: {x}' for x in d)
             d = _default_then_override(fi.node, set(ref_funcs[key].get('assigns', [])))
             if d:
                 log.setdefault(q, []).extend(f'default-then-override -> if/else: {x}' for x in d)
